@@ -19,6 +19,7 @@ def run(rep):
     e2(rep, w)
     e3(rep, w)
     e4(rep, w)
+    e5(rep, w)
     c04.b3(rep, w)
 
 
@@ -206,3 +207,37 @@ def e4(rep, w):
     boot = {'yarel::vm::Vm::init_heap_allocated_data', 'yarel::core::bind_type_class', 'yarel::core::bind_object_class',
             'yarel::core::bind_gc_obj_string_class', 'yarel::core::new_base_metaclass'}
     r.check(set(callers) <= boot, 'Root::as_mut is used only by the core-class bootstrap', 'Root::as_mut (unsafe &mut into shared storage) is used in %s' % sorted(set(callers) - boot))
+
+
+def e5(rep, w):
+    """string interpolation renders each `${..}` part at once: FormatString follows the part's expression before the next part is
+    compiled, and BuildString only concatenates strings. (A part rendered later would show mutations made by later parts.)"""
+    r = rep.rule('E5', 'interpolation: every embedded expression is rendered (FormatString) before the next part is evaluated; BuildString only concatenates', floor=3)
+    f = w.require_fn(P + 'interpolation', 'C05')
+    exprs = {bi for bi, t in f.calls() if callee_name(t) == P + 'expression'}
+    fmts = {bi for (bi, k, o, d) in emit.emissions(w, f) if o == 'FormatString'}
+    builds = {bi for (bi, k, o, d) in emit.emissions(w, f) if o == 'BuildString'}
+    err = emit.error_blocks(f)
+    ok = bool(exprs) and bool(fmts) and bool(builds)
+    for e in exprs:
+        seen = set()
+        stack = list(f.succs()[e])
+        while stack and ok:
+            b = stack.pop()
+            if b in seen or b in fmts:
+                continue
+            seen.add(b)
+            if b in exprs or b in builds or f.blocks[b]['t']['t'] == 'return':
+                ok = False
+                break
+            stack.extend(f.succs()[b])
+    r.check(ok, 'interpolation: expression(); FormatString; ... BuildString', 'an embedded expression can be followed by the next part (or by BuildString) without a '
+            'FormatString in between: the part is rendered only after later parts ran, so it shows their side effects', f.loc())
+    g = w.require_fn('yarel::vm::Vm::build_string_impl', 'C05')
+    fmt_calls = [callee_name(t) for _, t in g.calls() if 'fmt::rt::Argument' in (callee_name(t) or '') or (callee_name(t) or '').endswith('write_fmt')]
+    strs = [1 for _, t in g.calls() if (callee_name(t) or '').endswith('try_as_obj_string')]
+    r.check(not fmt_calls and bool(strs), 'build_string_impl concatenates strings and formats nothing', 'build_string_impl renders values itself (%s): rendering is deferred to '
+            'the end of the literal' % fmt_calls[:2], g.loc())
+    h = w.require_fn('yarel::vm::Vm::format_string_impl', 'C05')
+    r.check(any((callee_name(t) or '') in ('yarel::vm::Vm::poke', 'yarel::vm::Vm::push') for _, t in h.calls()), 'format_string_impl replaces the operand with its text',
+            'format_string_impl no longer stores the rendered text back on the stack', h.loc())
